@@ -7,6 +7,7 @@ mod conncases;
 mod framecases;
 mod loopcases;
 mod songcases;
+mod predefcases;
 
 use std::io::{BufRead, Write};
 
@@ -42,6 +43,7 @@ fn dispatch(toks: &[&str]) -> String {
         "frame" | "resp" => framecases::run(toks),
         "loop" => loopcases::run(toks),
         "songs" | "songs_nc" => songcases::run(toks),
+        "predef" => predefcases::run(toks),
         other => format!("unknown-kind {}", other),
     }
 }
